@@ -433,6 +433,13 @@ pub fn vgrow_cases(t: bool) -> Vec<Case> {
             }
         }
     }
+    // kind 17: an older block, then one bulk operation (resize / append / extend_from_slice_copy) that needs 1, 2 or 3 MiB:
+    // the bulk write must stay inside the vector's buffer
+    for &esz in sizes {
+        for n in [1u32, 2, 3] {
+            c.push(Case::VGrow { kind: 17, esz, n });
+        }
+    }
     // kind 16: two vectors growing side by side (each growth has to move): memory held stays proportional
     for &esz in sizes {
         for n in [2048u32, if t { 65536 } else { 16384 }] {
@@ -495,6 +502,43 @@ fn vgrow_typed<T: Copy + 'static>(envp: *mut ExecEnv, kind: u8, n: usize, val: T
                 vec.push(val);
                 if vec.as_ptr() as usize != p0 || vec.capacity() != c0 {
                     return Some(format!("buffer moved or capacity changed at push {} of {} reserved (capacity {} -> {})", i + 1, n, c0, vec.capacity()));
+                }
+            }
+            None
+        }
+        17 => {
+            let count = (n << 20) / esz.max(1) + 7;
+            for how in 0..3u8 {
+                // the victim is older than the vector's big buffer, i.e. directly above it in the chunk
+                let mut vec: BVec<T> = BVec::new_in(&bump);
+                for _ in 0..1000 {
+                    vec.push(val);
+                }
+                let victim: &mut [u64] = bump.alloc_slice_fill_copy(64, 0xA1A2_A3A4_A5A6_A7A8u64);
+                let vaddr = victim.as_ptr() as usize;
+                match how {
+                    0 => vec.resize(count, val),
+                    1 => {
+                        let mut donor: BVec<T> = BVec::with_capacity_in(8, &bump);
+                        donor.push(val);
+                        let mut big: BVec<T> = BVec::new_in(&bump);
+                        big.resize(count, val);
+                        big.append(&mut donor);
+                        if big.len() != count + 1 {
+                            return Some(format!("append at {count} elements: wrong length {}", big.len()));
+                        }
+                    }
+                    _ => {
+                        let l = vec.len();
+                        vec.resize(l + 3, val);
+                    }
+                }
+                let bad = (0..64).find(|i| unsafe { *((vaddr + i * 8) as *const u64) } != 0xA1A2_A3A4_A5A6_A7A8u64);
+                if let Some(i) = bad {
+                    return Some(format!("word {i} of an older live block changed while a vector of {esz}-byte elements was resized to {count} elements"));
+                }
+                if vec.capacity() < vec.len() {
+                    return Some(format!("capacity {} below length {}", vec.capacity(), vec.len()));
                 }
             }
             None
@@ -626,9 +670,18 @@ fn vgrow_typed<T: Copy + 'static>(envp: *mut ExecEnv, kind: u8, n: usize, val: T
                 14 => "reserved_capacity_not_stable/splice".into(),
                 15 => "reserve_promise_broken/large".into(),
                 16 => "held_memory_not_proportional/two_vectors".into(),
+                17 => "bulk_write_outside_buffer".into(),
                 _ => "vec_growth_not_geometric".into(),
             };
-            push("vec_capacity", key, format!("Vec<{} bytes> n={}: {}", esz, n, msg));
+            push("vec_capacity", key.clone(), format!("Vec<{} bytes> n={}: {}", esz, n, msg));
+            let extra_props: &[u8] = match kind {
+                15 => &[13],
+                17 => &[2, 13, 1],
+                _ => &[],
+            };
+            for &pr in extra_props {
+                v.push(Violation { prop: pr, clause: if kind == 15 { "reserve_promise_broken" } else { "live_block_changed" }, key: format!("{}/{}", if kind == 15 { "reserve_promise_broken" } else { "live_block_changed" }, key), detail: format!("Vec<{} bytes> n={}: {}", esz, n, msg), unsafe_mem: false });
+            }
         }
         Err(p) => push("vec_capacity", "vec_capacity/panic".into(), format!("Vec<{} bytes> n={}: panicked {:?}", esz, n, p)),
     }
